@@ -80,6 +80,19 @@ CLAIMS['C01'] = dict(
          'source regardless of order. Does not decide equality of observed spectra/densities or weak-reference lifetimes.',
     technique='effects/derived-state closure with virtual dispatch, observer-graph reachability, lazy-cache typestate, declared-visibility lint (who-may-write, def vs cdef dispatch)')
 
+CLAIMS['C18'] = dict(
+    text='Decides structural necessary conditions on all four laser profiles and both laser spectra: every setter writing a field '
+         'read by the builder of the energy-density function or of the binned spectrum (resolved on the concrete class through '
+         'virtual calls) re-runs that builder, and every setter writing a field that sizes the laser segments notifies the '
+         'subscribed laser node; the installed energy density is pulse_energy/(c pulse_length) times the unit distribution '
+         '(constant-in-z profiles) or pulse_energy times the unit-volume distribution (pulsed profile), with unit-integral '
+         'Gaussian prefactors, as exact rational forms; generate_segmented_cylinder tiles [0, length] exactly once and never '
+         'returns an empty list; no two differently named accessors return the same field; the binned spectrum uses delta = '
+         '(max-min)/bins, centres min+(i+1/2)delta, consecutive edges, power = density*delta and the erf-difference form for the '
+         'Gaussian. Does not decide the cross-section/volume integrals of the distribution functions, erf accuracy or '
+         'sum-to-one numerically.',
+    technique='effects/derived-state closure with virtual dispatch, exact rational algebra on builder bodies, accessor field-set comparison')
+
 # ---- everything not claimed above is pending / not applicable
 _pending = 'check not built yet in this session (see DESIGN.md build order); not claimed until it is'
 for _p in ['C%02d' % i for i in range(1, 21)]:
